@@ -26,6 +26,11 @@ type FuncResult struct {
 	GenS     float64
 	Trusted  bool
 	ctx      *Ctx
+	probes   []vacProbe
+}
+
+type vacProbe struct {
+	name, text, problem string
 }
 
 func (v *Verifier) verifyFunc(fn *ssa.Function, fc *FuncContract) (res *FuncResult) {
@@ -70,6 +75,31 @@ func (v *Verifier) verifyFunc(fn *ssa.Function, fc *FuncContract) (res *FuncResu
 		fr.freeVars = append(fr.freeVars, t)
 	}
 	fr.recovers = hasRecover(fn)
+	isInit := fn.Name() == "init" && fn.Synthetic != ""
+	fr.isInit = isInit
+	// global invariants (established by package initialisation, never written afterwards)
+	if !isInit {
+		for _, gi := range v.CS.GInvs {
+			p := v.P.ByPath[gi.Pkg]
+			if p == nil {
+				continue
+			}
+			ge := &Env{c: c, pkg: p.Types, vars: map[string]Binding{}, st: st}
+			t, err := ge.evalBool(gi.Cl.E)
+			if err != nil {
+				panic(evalError{fmt.Sprintf("global invariant %s: %v", gi.Src, err)})
+			}
+			c.assume(t)
+			c.assumed["global invariant (proved on "+shortKey(gi.Pkg)+".init, globals never stored elsewhere): "+gi.Cl.Src] = true
+		}
+	}
+	if isInit && fn.Pkg != nil {
+		// the initialiser runs once: its guard is false on entry
+		if g, ok := fn.Pkg.Members["init$guard"].(*ssa.Global); ok {
+			gp := app(SPtr, "pobj", tInt(int64(v.globalID(globalKey(g)))))
+			c.assume(not(c.load(st, gp, types.Typ[types.Bool])))
+		}
+	}
 	// preconditions
 	env := fr.entryEnv()
 	for _, r := range fc.Requires {
@@ -112,6 +142,19 @@ func (v *Verifier) verifyFunc(fn *ssa.Function, fc *FuncContract) (res *FuncResu
 			}
 			fr.oblige("ensures", e.Label, t, fn.Pos(), "postcondition: "+e.Src)
 		}
+		if isInit && fn.Pkg != nil {
+			for _, gi := range v.CS.GInvs {
+				if gi.Pkg != fn.Pkg.Pkg.Path() {
+					continue
+				}
+				ge := &Env{c: c, pkg: fn.Pkg.Pkg, vars: map[string]Binding{}, st: fr.st}
+				t, err := ge.evalBool(gi.Cl.E)
+				if err != nil {
+					panic(evalError{fmt.Sprintf("global invariant %s: %v", gi.Src, err)})
+				}
+				fr.oblige("init.global", gi.Cl.Label, t, fn.Pos(), "package initialisation establishes: "+gi.Cl.Src)
+			}
+		}
 		fr.frameObligations(fc)
 	} else if len(fc.Ensures) > 0 {
 		res.Vacuity = append(res.Vacuity, "function has no normal return but has postconditions")
@@ -122,7 +165,10 @@ func (v *Verifier) verifyFunc(fn *ssa.Function, fc *FuncContract) (res *FuncResu
 	res.Obls = c.obls
 	// vacuity probes (sat expected): preconditions consistent; exit reachable
 	if !v.Opts.NoVacuity {
-		res.VacuityN, res.Vacuity = v.vacuity(c, res, nEntryFacts, exitReach, len(fr.rets) > 0)
+		res.probes = append(res.probes, vacProbe{"vac.pre", c.buildSatProbe(nEntryFacts, ""), "preconditions and axioms are contradictory"})
+		if len(fr.rets) > 0 {
+			res.probes = append(res.probes, vacProbe{"vac.exit", c.buildSatProbe(len(c.facts), exitReach.S), "no normal return is reachable under the assumptions (all postconditions vacuous)"})
+		}
 	}
 	return res
 }
@@ -283,30 +329,6 @@ func (c *Ctx) buildSatProbe(nfacts int, extra string) string {
 	return b.String()
 }
 
-// vacuity: the assumptions must not be contradictory. A probe that comes back `unsat` means
-// every obligation of the function would pass vacuously.
-func (v *Verifier) vacuity(c *Ctx, res *FuncResult, nEntry int, exitReach Term, hasExit bool) (int, []string) {
-	var probs []string
-	n := 0
-	dir := v.Opts.WorkDir
-	probe := func(name, text string) string {
-		q := &Query{Name: sanitize(shortKey(res.Key)) + "." + name, Text: text}
-		r := solve(q, dir, 10, v.Opts.Solvers)
-		return r.Verdict
-	}
-	n++
-	if probe("vac.pre", c.buildSatProbe(nEntry, "")) == "unsat" {
-		probs = append(probs, "preconditions and axioms are contradictory")
-	}
-	if hasExit {
-		n++
-		if probe("vac.exit", c.buildSatProbe(len(c.facts), exitReach.S)) == "unsat" {
-			probs = append(probs, "no normal return is reachable under the assumptions (all postconditions vacuous)")
-		}
-	}
-	return n, probs
-}
-
 // solveAll discharges the obligations of a set of function results in parallel.
 func (v *Verifier) solveAll(results []*FuncResult) {
 	type job struct {
@@ -324,6 +346,25 @@ func (v *Verifier) solveAll(results []*FuncResult) {
 	}
 	var wg sync.WaitGroup
 	sem := make(chan struct{}, 14)
+	var mu sync.Mutex
+	for _, r := range results {
+		for _, p := range r.probes {
+			wg.Add(1)
+			sem <- struct{}{}
+			go func(r *FuncResult, p vacProbe) {
+				defer wg.Done()
+				defer func() { <-sem }()
+				q := &Query{Name: sanitize(shortKey(r.Key)) + "." + p.name, Text: p.text}
+				sr := solve(q, v.Opts.WorkDir, 5, v.Opts.Solvers)
+				mu.Lock()
+				r.VacuityN++
+				if sr.Verdict == "unsat" {
+					r.Vacuity = append(r.Vacuity, p.problem)
+				}
+				mu.Unlock()
+			}(r, p)
+		}
+	}
 	for _, j := range jobs {
 		wg.Add(1)
 		sem <- struct{}{}
@@ -387,3 +428,83 @@ func mkWorkDir() string {
 }
 
 var _ = types.Typ
+
+// globalsIn collects the package-level variables a contract expression mentions.
+func globalsIn(e Expr, pkg *types.Package, out map[string]bool) {
+	switch x := e.(type) {
+	case EIdent:
+		if v, ok := pkg.Scope().Lookup(x.Name).(*types.Var); ok {
+			out[v.Pkg().Path()+"."+v.Name()] = true
+		}
+	case EUnary:
+		globalsIn(x.X, pkg, out)
+	case EBinary:
+		globalsIn(x.X, pkg, out)
+		globalsIn(x.Y, pkg, out)
+	case ECall:
+		for _, a := range x.Args {
+			globalsIn(a, pkg, out)
+		}
+	case ESel:
+		globalsIn(x.X, pkg, out)
+	case EIndex:
+		globalsIn(x.X, pkg, out)
+		globalsIn(x.I, pkg, out)
+	case EQuant:
+		globalsIn(x.Body, pkg, out)
+	case ECond:
+		globalsIn(x.C, pkg, out)
+		globalsIn(x.A, pkg, out)
+		globalsIn(x.B, pkg, out)
+	case EOld:
+		globalsIn(x.X, pkg, out)
+	case EDeref:
+		globalsIn(x.X, pkg, out)
+	}
+}
+
+// structuralGlobalStores: a global under a global invariant may be written only by its
+// package's init function. Returns violations.
+func (v *Verifier) structuralGlobalStores() []string {
+	want := map[string]bool{}
+	for _, gi := range v.CS.GInvs {
+		p := v.P.ByPath[gi.Pkg]
+		if p == nil {
+			continue
+		}
+		globalsIn(gi.Cl.E, p.Types, want)
+	}
+	if len(want) == 0 {
+		return nil
+	}
+	var out []string
+	for key, fn := range v.P.Funcs {
+		if fn.Name() == "init" && fn.Synthetic != "" {
+			continue
+		}
+		var scan func(f *ssa.Function)
+		scan = func(f *ssa.Function) {
+			for _, b := range f.Blocks {
+				for _, ins := range b.Instrs {
+					for _, op := range ins.Operands(nil) {
+						g, ok := (*op).(*ssa.Global)
+						if !ok || !want[globalKey(g)] {
+							continue
+						}
+						// the only allowed use is a direct load
+						if u, ok := ins.(*ssa.UnOp); ok && u.X == ssa.Value(g) {
+							continue
+						}
+						if _, ok := ins.(*ssa.DebugRef); ok {
+							continue
+						}
+						out = append(out, fmt.Sprintf("%s uses global %s other than by loading it (%s)", shortKey(key), shortKey(globalKey(g)), ins))
+					}
+				}
+			}
+		}
+		scan(fn)
+	}
+	sort.Strings(out)
+	return out
+}
